@@ -274,6 +274,16 @@ def lookup (akai : Bool) : Node → List Name → Nat → Except Nat Node
       | none => .error i
     else .error i
 
+/-- does child `k` carry the (normalised) name of token `t`? -/
+def childMatches (akai : Bool) (kids : List Node) (t : Name) (k : Nat) : Bool :=
+  match kids[k]? with
+  | some c => sanitizeToken akai c.name == sanitizeToken akai t
+  | none => false
+
+/-- `next(x for x in children if sanitize(x.safe_name) == sanitize(token))`: first matching child. -/
+def findChild (akai : Bool) (kids : List Node) (t : Name) : Option Nat :=
+  (List.range kids.length).find? (childMatches akai kids t)
+
 /-- index path of the node found, or the `ErrorInvalidPath` message of `parse_path`. -/
 def lookupIdx (akai : Bool) : Node → List Name → List Name → Nat → List Nat → Except Name (List Nat)
   | _, [], _, _, acc => .ok acc.reverse
@@ -283,10 +293,7 @@ def lookupIdx (akai : Bool) : Node → List Name → List Name → Nat → List 
         else (List.intersperse ['/'] (all.take i)).flatten ++ ['/']
       .error ("The entity \"".toList ++ t ++ "\" was not found in \"".toList ++ sofar ++ "\".".toList)
     if n.isDir then
-      match (List.range n.children.length).find? (fun k =>
-          match n.children[k]? with
-          | some c => sanitizeToken akai c.name == sanitizeToken akai t
-          | none => false) with
+      match findChild akai n.children t with
       | some k =>
         match n.children[k]? with
         | some c => lookupIdx akai c ts all (i + 1) (k :: acc)
